@@ -17,13 +17,19 @@ LEVEL_TEXT = ('Unbounded Lean theorems: (0) ALL SIZES of the hand-modelled surfa
               'IsDistance n H (min Lx Ly), Toric3DCode and XCubeCode (Lx,Ly,Lz>=2) have IsDistance n H (min Lx Ly Lz), Planar3DCode '
               'and RotatedPlanar3DCode (Lx,Ly,Lz>=1) have IsDistance n H (min Lx (Ly*Lz)), on the matrices assembled from the '
               'hand-written lattice model, and code.d (min weight over the listed logicals) equals that value, for every '
-              'lattice size - upper bound: a listed logical; lower bound: packing with lattice translates (consecutive '
+              'lattice size; RotatedToric3DCode (Lx,Ly>=2 not both odd, Lz>=1): IsDistance n H d and code.d = d with d = min Lx Ly '
+              '(even x even, k=2), min Ly (Lx*Lz) (odd Lx: defect line, logical Z a wall of Y letters), min Lx (Ly*Lz) (odd Ly) - '
+              'packing in the sign picture of the C01 proof, which treats the mixed X/Z generators of the defect lines uniformly; '
+              'HollowPlanar3DCode (Lx,Ly,Lz>=1): the TRUE distance min Lx wZ (wZ = x edges of a cross-section '
+              'through the cavity = Ly*Lz - [Lx>=3](Ly-2)(Lz-2)) for every size, code.d = min Lx (Ly*Lz) for every size, equal '
+              'when Lx<=2 or Ly<=2 or Lz<=2 or Lx<=2Ly+2Lz-4 and PROVED DIFFERENT otherwise (reported_distance_wrong: known '
+              'finding, smallest size (9,3,3): d reported 9, true 8) - upper bound: a listed logical; lower bound: packing with lattice translates (consecutive '
               'translates of a logical line differ by the row of generators between them, consecutive translates of a logical '
               'plane by the slab of vertex generators between them, so any operator commuting with all generators meets every '
               'translate; X-cube: Z lines are rigid, a line is equivalent to the product of three lines through the other '
               'corners of a rectangle of rows of cubes, which still gives min(L) disjoint representatives); (0b) DEFORMED CODES: a '
               'per-qubit permutation of {X,Y,Z} preserves weight, commutation and span, hence IsDistance and code.d '
-              '(distance_deformation_invariant, every n, H, d); so every deformed code of these seven classes (every name/axis '
+              '(distance_deformation_invariant, every n, H, d); so every deformed code of these classes (every name/axis '
               'get_deformation accepts) has the same distance, for every size (distance_deformed); (1) distance criterion and '
               'packing bound for every valid [[n,k]] code (a '
               'non-trivial logical anticommutes with some listed logical, by C04; d pairwise disjoint representatives '
@@ -46,9 +52,9 @@ LEVEL_NOTE = ('trusted: Lean kernel + standard axioms; translator harness/regen_
               'the distance is proved in general (distance_deformation_invariant), so for deformed codes the native '
               'evaluation is redundant with the undeformed instance theorem. All-sizes (unbounded in L) distance '
               'theorems exist for Toric2DCode, Planar2DCode, RotatedPlanar2DCode, Toric3DCode, Planar3DCode, '
-              'RotatedPlanar3DCode, XCubeCode only '
+              'RotatedPlanar3DCode, XCubeCode, RotatedToric3DCode, HollowPlanar3DCode (no deformation offered) only '
               '(undeformed and deformed; trusted in addition: the correspondence harness tying the hand-written '
-              'lattice models to the classes, as in C01); the other 9 classes are covered by the bounded instance '
+              'lattice models to the classes, as in C01); the other 7 classes are covered by the bounded instance '
               'theorems (named ..._partial).')
 TECHNIQUE = ('Lean 4 proof: certificate-checker soundness (unbounded) + kernel-checked instance theorems over tables '
              'and certificates regenerated from the source; differential correspondence of code.d; independent '
@@ -66,7 +72,7 @@ RULE = ('stream 1: one `dist` op per (class, size, deformation): model distance 
 
 # all-sizes distance theorems of the hand-modelled classes (built and axiom-audited with C17)
 ALLSIZES_CLASSES = ['Toric2DCode', 'Planar2DCode', 'RotatedPlanar2DCode', 'Toric3DCode', 'Planar3DCode',
-                    'RotatedPlanar3DCode', 'XCubeCode']
+                    'RotatedPlanar3DCode', 'XCubeCode', 'HollowPlanar3DCode', 'RotatedToric3DCode']
 PROPERTY_MODULES = ['PanqecVerif.Properties.C17'] + [f'PanqecVerif.Properties.C17{c}' for c in ALLSIZES_CLASSES]
 
 # instances of the regenerated tables for which no certificate is expected (see LEVEL_NOTE)
@@ -376,6 +382,33 @@ def oracle_case(c, deep):
     return None, None
 
 
+HOLLOW_MEMBRANE_SIZES = [(9, 3, 3), (8, 3, 3), (5, 3, 3)]
+HOLLOW_MEMBRANE_SIZES_DEEP = [(10, 3, 3), (11, 3, 4), (10, 3, 4), (9, 4, 3), (7, 2, 5)]
+
+
+def hollow_membrane_case(size):
+    """Z on the x edges (3, y, z) of HollowPlanar3DCode(size): a failure iff it is a non-trivial logical
+    operator lighter than the reported d"""
+    cls = 'HollowPlanar3DCode'
+    try:
+        inst = live(cls, tuple(size), (None, {}))
+    except Exception:  # noqa
+        return None
+    op = {q: 'Z' for q, c in enumerate(inst.coords) if int(c[0]) == 3 and int(c[1]) % 2 == 0 and int(c[2]) % 2 == 0}
+    if not op or not check_operator(inst, op):
+        return None
+    Lx, Ly, Lz = size
+    match = {'class': cls, 'size': list(size)}
+    if Ly >= 3 and Lz >= 3 and Lx > 2 * Ly + 2 * Lz - 4:
+        match = {'class': cls, 'size_class': 'Ly, Lz >= 3 and Lx > 2 Ly + 2 Lz - 4'}
+    return {'input': {'class': cls, 'size': list(size), 'deform': [None, {}],
+                      'operator': {str(q): p for q, p in sorted(op.items())},
+                      'operator_coordinates': describe(inst, op), 'weight': len(op), 'reported_d': inst.d},
+            'observed': f'non-trivial logical operator of weight {len(op)} < reported d = {inst.d} '
+                        f'(Z membrane through the cavity, cross-section x = 3)',
+            'match': match}
+
+
 def lighter_or_equal_none(inst: D.Inst, w: int) -> bool:
     """True iff no non-trivial logical of weight <= w exists (exhaustive, w <= 4)"""
     return lighter_mitm(inst, w) is None
@@ -450,6 +483,17 @@ def oracle(ctx, deep=False, broken=None):
             errs += 1
         if f is not None:
             fails.append(f)
+    # directed family (theorem C17HollowPlanar3DCode.distance): the Z membrane through the cavity of
+    # HollowPlanar3DCode, i.e. Z on the existing x edges of the cross-section x = 3.  It is a non-trivial
+    # logical of weight Ly*Lz - (Ly-2)(Lz-2); code.d = min(Lx, Ly*Lz) exceeds it iff Ly, Lz >= 3 and
+    # Lx > 2Ly + 2Lz - 4 (known finding, smallest size (9,3,3)).  Appended after the generic cases so that a
+    # generic failure of the class at a small size is the one that is kept per class.
+    n_dir = 0
+    for size in HOLLOW_MEMBRANE_SIZES + (HOLLOW_MEMBRANE_SIZES_DEEP if deep else []):
+        n_dir += 1
+        f = hollow_membrane_case(size)
+        if f is not None:
+            fails.append(f)
     # the d written to result files = the d of a fresh code of that size (same for n, k)
     n_rec = 0
     for cls, sizes in recorded_cases(ctx, deep):
@@ -478,7 +522,7 @@ def oracle(ctx, deep=False, broken=None):
             continue
         seen.add(k)
         out.append(f)
-    return out, {'evaluations': len(cases) + n_rec, 'recorded_d_cases': n_rec, 'construct_errors': errs, 'deep': bool(deep),
+    return out, {'evaluations': len(cases) + n_rec + n_dir, 'recorded_d_cases': n_rec, 'hollow_membrane_cases': n_dir, 'construct_errors': errs, 'deep': bool(deep),
                  'milp_cases': len(milp_cases), 'seconds': round(time.time() - t0, 1)}
 
 
